@@ -1,0 +1,87 @@
+//go:build verif && (verif_all || verif_c16)
+// +build verif
+// +build verif_all verif_c16
+
+package gocql
+
+// Verification hooks (build tag `verif`) for C16, event-debouncer schedules with `stop` (Session.Close racing with
+// event delivery): the harness can hold the debouncer's mutex (= a debounce() or flush in progress on another
+// goroutine), let the debounce timer expire while it holds it (the flusher is then committed to flushing: between
+// `case <-e.timer.C` and `e.mu.Lock()`), and call stop() on its own goroutine. Add-only thin wrappers.
+
+import (
+	"runtime"
+	"strings"
+	"sync"
+)
+
+var verifEvqStopped sync.Map // *VerifEvQueue -> chan struct{} (closed when stop() has returned)
+
+// HoldMu / ReleaseMu: the debouncer's mutex is taken / released by the harness.
+func (v *VerifEvQueue) HoldMu()    { v.e.mu.Lock() }
+func (v *VerifEvQueue) ReleaseMu() { v.e.mu.Unlock() }
+
+// FireHeld (the harness holds the mutex): a running debounce timer is made to expire now. It returns whether the timer
+// was running and how many frames the buffer holds.
+func (v *VerifEvQueue) FireHeld() (wasRunning bool, buffered int) {
+	e := v.e
+	if e.timer.Stop() {
+		e.timer.Reset(1)
+		return true, len(e.events)
+	}
+	return false, len(e.events)
+}
+
+// StopAsync calls the real eventDebouncer.stop() on its own goroutine (once); the channel is closed when it returns.
+func (v *VerifEvQueue) StopAsync() <-chan struct{} {
+	done := make(chan struct{})
+	if prev, loaded := verifEvqStopped.LoadOrStore(v, done); loaded {
+		return prev.(chan struct{})
+	}
+	go func() {
+		v.e.stop()
+		close(done)
+	}()
+	return done
+}
+
+// Finish ends the queue: stop() unless StopAsync was called (a second stop would block for ever), then every waiting
+// callback goroutine is let go.
+func (v *VerifEvQueue) Finish() {
+	if _, stopped := verifEvqStopped.Load(v); stopped {
+		verifEvqStopped.Delete(v)
+		v.mu.Lock()
+		gs := v.gates
+		v.gates = map[int]chan struct{}{}
+		v.mu.Unlock()
+		for range gs {
+			go func() { <-v.read }()
+		}
+		for _, g := range gs {
+			close(g)
+		}
+		return
+	}
+	v.Stop()
+}
+
+// VerifEvqGoroutines: what the goroutines of event debouncers named in a goroutine dump are blocked in, as
+// "<function>:<state>" (e.g. "flusher:sync.Mutex.Lock", "stop:chan send", "flusher:select").
+func VerifEvqGoroutines() []string {
+	buf := make([]byte, 1<<22)
+	buf = buf[:runtime.Stack(buf, true)]
+	var out []string
+	for _, g := range strings.Split(string(buf), "\n\n") {
+		for _, fn := range []string{"flusher", "stop"} {
+			if !strings.Contains(g, "(*eventDebouncer)."+fn+"(") {
+				continue
+			}
+			st := g[strings.Index(g, "[")+1:]
+			if i := strings.IndexAny(st, "],"); i >= 0 {
+				st = st[:i]
+			}
+			out = append(out, fn+":"+st)
+		}
+	}
+	return out
+}
